@@ -5,5 +5,8 @@ export GOFLAGS=-mod=mod GOPROXY=off GOSUMDB=off GOTOOLCHAIN=local
 cd /verif/harness || exit 2
 BIN="/verif/.bin/verifx.replay.$$"
 trap 'rm -f "$BIN"' EXIT
-go1.26.8 build -tags verif -o "$BIN" ./cmd/verifx || exit 2
+OVLDIR="$(mktemp -d /tmp/verif-build-XXXXXX)"
+trap 'rm -f "$BIN"; rm -rf "$OVLDIR"' EXIT
+OVLJSON="$(go1.26.8 run ./cmd/mkoverlay "$OVLDIR")" || exit 2
+go1.26.8 build -tags verif -overlay "$OVLJSON" -o "$BIN" ./cmd/verifx || exit 2
 "$BIN" replay "$1"
